@@ -7,6 +7,7 @@ import (
 
 	"github.com/form3tech-oss/f1/v2/internal/log"
 	"github.com/form3tech-oss/f1/v2/internal/ui"
+	"github.com/form3tech-oss/f1/v2/internal/verifhook"
 )
 
 type ScenarioLogger struct {
@@ -45,6 +46,9 @@ func (s *ScenarioLogger) Open(logFilePath string, logConfig *log.Config, runName
 func (s *ScenarioLogger) Close() error {
 	if s.logFile != nil {
 		if err := s.logFile.Close(); err != nil {
+			return fmt.Errorf("closing log file: %w", err)
+		}
+		if err := verifhook.Fault("scenariolog.close"); err != nil {
 			return fmt.Errorf("closing log file: %w", err)
 		}
 	}
